@@ -281,10 +281,41 @@ fn check_case(c: &Case, p: &mut Partial, deep: bool) {
             return;
         }
         // ---- one step vs the reference ----
+        let mut grad_fn0 = |x: &[f64]| {
+            let mut g = vec![0.0; d];
+            target.logp(x, &mut g);
+            g
+        };
+        // a saturated ESH update (delta = step * |g| / (d-1) beyond 30: exp(-delta) is below
+        // rounding, for backward steps exp(+delta) heads for overflow) is outside the regime in
+        // which a closed-form reference and the implementation can be compared: counted, not judged
+        let esh_saturated = if c.kind == KineticEnergyKind::Microcanonical && d >= 2 {
+            let sq = (d as f64).sqrt();
+            let h = sq * c.eps / 2.0;
+            let norm = |g: &[f64]| g.iter().map(|x| x * x).sum::<f64>().sqrt();
+            let d1 = h.abs() * norm(&a.gy) / (d as f64 - 1.0);
+            let (u1, _) = esh_reference(&a.gy, &a.v, h);
+            let y1: Vec<f64> = (0..d).map(|i| a.y[i] + c.eps * sq * u1[i]).collect();
+            let fy1 = f.mul_vec(&y1);
+            let x1: Vec<f64> = (0..d).map(|i| fy1[i] + mu[i]).collect();
+            let g1 = f.tmul_vec(&grad_fn0(&x1));
+            let d2 = h.abs() * norm(&g1) / (d as f64 - 1.0);
+            !(d1 <= 30.0 && d2 <= 30.0)
+        } else {
+            false
+        };
         let Some(e) = step(&mut s, &st, dir) else {
+            if esh_saturated {
+                p.count("saturated_esh_steps_not_judged", 1);
+                return;
+            }
             viol("leapfrog-not-ok", String::new(), p);
             return;
         };
+        if esh_saturated {
+            p.count("saturated_esh_steps_not_judged", 1);
+            return;
+        }
         let b = snap(&mut s, &e);
         if b.idx != a.idx + if c.eps > 0.0 { 1 } else { -1 } {
             viol("index-in-trajectory", format!("{} -> {}", a.idx, b.idx), p);
